@@ -6,7 +6,7 @@ job = {"mode": "claripy" | "z3ref",      z3ref: self-test of spec/FP.tla, the re
                                          z3 API term (claripy is not imported at all)
        "gen": "pool" | "rand" | "list",  pool: deterministic pool-exhaustive cases of one group; rand: seeded extras
        "fmt": "d" | "f", "group": "arith"|"cmp"|"unary"|"toint"|"fptofp"|"inttofp"|"bits"|"d2", "ops": [...],
-       "pool": "quick" | "full", "part": k, "nparts": n, "solved": 0|1, "fresh_every": N, "seed": s, "n": count,
+       "pool": "small" | "quick" | "full" | "closure", "part": k, "nparts": n, "solved": N (every N-th case, 0 never), "fresh_every": N, "seed": s, "n": count,
        "cases": [...] (gen=list)}
 
 Event (one ndjson line, validated by spec/TraceFP.tla; every field always present, bit patterns LSB-first lists):
@@ -118,6 +118,11 @@ def pool_fp(fmt, level="quick"):
     return _dedup(quick + more)
 
 
+def small_pool(fmt, n=30):
+    """sub-pool for the expensive operators of the quick tier: the 11 special patterns + the first values"""
+    return pool_fp(fmt, "quick")[:n]
+
+
 def closure_pool(fmt, n_extra=24):
     """full pool + a deterministic sample of the results of the quick pool's own operations (one closure level).
     The results are computed with Python floats: they are only *operands* for further events."""
@@ -181,7 +186,9 @@ def gen_pool(job):
     fmt, grp, level = job["fmt"], job["group"], job.get("pool", "quick")
     ops = job.get("ops")
     other = "f" if fmt == "d" else "d"
-    P = closure_pool(fmt) if level == "closure" else pool_fp(fmt, level)
+    P = closure_pool(fmt) if level == "closure" else small_pool(fmt) if level == "small" else pool_fp(fmt, level)
+    if level == "small":
+        level = "quick"
     ilevel = "quick" if level == "quick" else "full"
     if grp == "arith":
         for op in ops or ARITH:
@@ -657,7 +664,8 @@ def main():
         if mode == "z3ref" and c["op"] == "toieee" and is_nan_pattern(c["a"], c["fmt"]):
             skipped += 1          # Z3 leaves fp.to_ieee_bv(NaN) uninterpreted; nothing to compare
             continue
-        ev = run_case(c, mode, job.get("solved", 1), bool(fresh_every) and i % fresh_every == 0)
+        sev = job.get("solved", 1)
+        ev = run_case(c, mode, bool(sev) and i % sev == 0, bool(fresh_every) and i % fresh_every == 0)
         ev["gi"] = i
         cnt["n_" + c["op"]] = cnt.get("n_" + c["op"], 0) + 1
         if ev["sv"]:
